@@ -1,69 +1,67 @@
 import HmsProofs.Lemmas.SimPure
 /-!
-# Mangled label names are injective
+# Mangled names are injective
 
-`mangleLabel` forms `<module>_<ident><count>`. The `ident`s the compiler uses contain no digit,
-so the name determines `(ident, count)`. (For *variables* the same scheme is not injective:
-source identifiers may end in digits — finding V26.)
+`mangleLabel` forms `<module>.<ident>.<count>` and `mangleVar` forms `@<module>.<ident>.<count>`
+(the scheme after the fix of finding V26). The decimal count contains no `.`, so the *last* `.`
+of a name separates the count from the rest: for a fixed module the name determines
+`(ident, count)` — for every identifier, with or without digits or dots.
 -/
 namespace HmsProofs.Sim
 open Hms.Core Hms.Core.Comp
 
-def labelName (mod ident : String) (c : Nat) : String := s!"{mod}_{ident}{c}"
+def labelName (mod ident : String) (c : Nat) : String := s!"{mod}.{ident}.{c}"
 
 theorem freshLabel_fst (mod : String) (lm : LM) (ident : String) :
     (freshLabel mod lm ident).1 = labelName mod ident ((lm.lookup ident).getD 0) := rfl
 
 theorem labelName_toList (mod ident : String) (c : Nat) :
-    (labelName mod ident c).toList = mod.toList ++ ("_".toList ++ (ident.toList ++ Nat.toDigits 10 c)) := by
-  show (mod ++ "_" ++ ident ++ toString c).toList = _
+    (labelName mod ident c).toList =
+      mod.toList ++ (".".toList ++ (ident.toList ++ (".".toList ++ Nat.toDigits 10 c))) := by
+  show (mod ++ "." ++ ident ++ "." ++ toString c).toList = _
   simp only [String.toList_append, Nat.toString_eq_repr, Nat.toList_repr, List.append_assoc]
 
-/-- No character of `s` is a decimal digit. -/
-def NoDigits (s : String) : Prop := ∀ ch ∈ s.toList, ch.isDigit = false
-
-theorem split_digits : ∀ (xs ys ds es : List Char),
-    (∀ c ∈ xs, c.isDigit = false) → (∀ c ∈ ys, c.isDigit = false) →
-    (∀ c ∈ ds, c.isDigit = true) → (∀ c ∈ es, c.isDigit = true) →
-    xs ++ ds = ys ++ es → xs = ys ∧ ds = es := by
+/-- Splitting at the last separator: the suffixes do not contain it. -/
+theorem split_last_sep {α} {sep : α} : ∀ {xs xs' ys ys' : List α},
+    xs ++ sep :: ys = xs' ++ sep :: ys' → sep ∉ ys → sep ∉ ys' → xs = xs' ∧ ys = ys' := by
   intro xs
   induction xs with
   | nil =>
-    intro ys ds es _ hy hd _ h
-    cases ys with
-    | nil => exact ⟨rfl, by simpa using h⟩
-    | cons y ys =>
-      simp only [List.nil_append, List.cons_append] at h
-      have h1 := hy y (by simp)
-      have h2 := hd y (by rw [h]; simp)
-      rw [h1] at h2; cases h2
-  | cons x xs ih =>
-    intro ys ds es hx hy hd he h
-    cases ys with
+    intro xs' ys ys' h hy _
+    cases xs' with
+    | nil => simpa using h
+    | cons c t =>
+      simp only [List.nil_append, List.cons_append, List.cons.injEq] at h
+      exact absurd (h.2 ▸ (by simp : sep ∈ t ++ sep :: ys')) hy
+  | cons a s ih =>
+    intro xs' ys ys' h hy hy'
+    cases xs' with
     | nil =>
-      simp only [List.nil_append, List.cons_append] at h
-      have h1 := hx x (by simp)
-      have h2 := he x (by rw [← h]; simp)
-      rw [h1] at h2; cases h2
-    | cons y ys =>
+      simp only [List.nil_append, List.cons_append, List.cons.injEq] at h
+      exact absurd (h.2 ▸ (by simp : sep ∈ s ++ sep :: ys)) hy'
+    | cons c t =>
       simp only [List.cons_append, List.cons.injEq] at h
       obtain ⟨rfl, h⟩ := h
-      obtain ⟨rfl, h'⟩ := ih ys ds es (fun c hc => hx c (by simp [hc])) (fun c hc => hy c (by simp [hc])) hd he h
-      exact ⟨rfl, h'⟩
+      obtain ⟨rfl, rfl⟩ := ih h hy hy'
+      exact ⟨rfl, rfl⟩
+
+theorem dot_not_mem_toDigits (c : Nat) : '.' ∉ Nat.toDigits 10 c := by
+  intro h
+  simpa using Nat.isDigit_of_mem_toDigits (by decide) (by decide) h
 
 theorem toDigits_inj (a b : Nat) (h : Nat.toDigits 10 a = Nat.toDigits 10 b) : a = b := by
   have := congrArg (fun l => Nat.ofDigitChars 10 l 0) h
   simpa [Nat.ofDigitChars_ten_toDigits] using this
 
-/-- **Label names are injective** in `(ident, count)` for digit-free `ident`s. -/
-theorem labelName_inj (mod id1 id2 : String) (c1 c2 : Nat) (h1 : NoDigits id1) (h2 : NoDigits id2)
+/-- **Label names are injective** in `(ident, count)`, for all identifiers. -/
+theorem labelName_inj (mod id1 id2 : String) (c1 c2 : Nat)
     (h : labelName mod id1 c1 = labelName mod id2 c2) : id1 = id2 ∧ c1 = c2 := by
   have := congrArg String.toList h
   rw [labelName_toList, labelName_toList] at this
-  have := List.append_cancel_left (List.append_cancel_left this)
-  obtain ⟨e1, e2⟩ := split_digits _ _ _ _ h1 h2
-    (fun c hc => Nat.isDigit_of_mem_toDigits (by decide) (by decide) hc)
-    (fun c hc => Nat.isDigit_of_mem_toDigits (by decide) (by decide) hc) this
+  have h1 := List.append_cancel_left (List.append_cancel_left this)
+  have hd : ".".toList = ['.'] := rfl
+  rw [hd] at h1
+  obtain ⟨e1, e2⟩ := split_last_sep (sep := '.') h1 (dot_not_mem_toDigits c1) (dot_not_mem_toDigits c2)
   exact ⟨String.toList_inj.mp e1, toDigits_inj _ _ e2⟩
 
 /-- The label identifiers used by the compiler. -/
@@ -71,11 +69,5 @@ def labelIdents : List String :=
   ["return_true", "after_infix", "return_false", "if_after", "else", "match_after", "case",
    "match_default", "exception_label", "after_catch_label", "loop_head", "loop_end", "loop_update",
    "cleanup"]
-
-theorem labelIdents_noDigits : ∀ id ∈ labelIdents, NoDigits id := by
-  intro id hid
-  simp only [labelIdents, List.mem_cons, List.not_mem_nil, or_false] at hid
-  rcases hid with rfl | rfl | rfl | rfl | rfl | rfl | rfl | rfl | rfl | rfl | rfl | rfl | rfl | rfl <;>
-    (intro ch hch; revert ch; decide)
 
 end HmsProofs.Sim
